@@ -361,6 +361,7 @@ def evalE : Nat → Ctx → Expr → M Val
     | .newE t => do
       let c ← alloc (zero P.types zeroFuel t)
       pure (.ptr (some c) [])
+    | .nilE t => pure (zero P.types zeroFuel t)
     | .structLit _ fs => do
       let vs ← evalEs n ctx fs
       pure (.struct vs)
@@ -643,6 +644,16 @@ def execS : Nat → Ctx → Stmt → M (Ctl × Env)
       let vs ← evalEs n ctx es
       printLine vs
       pure (.norm, ctx.env)
+    | .deleteS m k => do
+      let mv ← evalE n ctx m
+      let kv ← evalE n ctx k
+      match mv with
+      | .map _ none => pure (.norm, ctx.env)
+      | .map _ (some c) => do
+        let kvs ← readMap c
+        writeCell c (.mapobj (mapDel kvs kv))
+        pure (.norm, ctx.env)
+      | _ => stuck "delete on non-map"
     | .ifS init c th el => do
       let env1 ← match init with
         | some i => do let (_, e1) ← execS n ctx i; pure e1
@@ -856,7 +867,7 @@ def runProgram (fuel : Nat) : Outcome × Array String :=
     let genv ← bindCells (P.globals.map (·.1)) (P.globals.map fun g => zero P.types zeroFuel g.2.1) []
     let ctx : Ctx := { env := [], genv := genv, cr := false, results := [] }
     initGlobals P fuel ctx P.globals
-    let _ ← callFn P fuel genv (.fn (some P.main) []) [] false
+    let _ ← callFn P fuel genv (.fn (some P.entry) []) [] false
     pure ()
   match m {} with
   | .ok _ s => (.ok, s.out)
